@@ -40,7 +40,7 @@ def _make_grammar(gd):
     return Grammar.from_string(gd["text"], recognizers=peers.wrap_recognizers(gd.get("recs")))
 
 
-def _make_parser(g, b, spec, actions=None):
+def _make_parser(g, b, spec, actions=None, shared_table=None):
     from parglare import GLRParser, Parser
 
     cls = Parser if b["kind"] == "lr" else GLRParser
@@ -63,13 +63,23 @@ def _make_parser(g, b, spec, actions=None):
         kw["dynamic_filter"] = f
     if b.get("ctr"):
         kw["custom_token_recognition"] = peers.custom_token_recognition
+    if shared_table is not None:
+        kw["table"] = shared_table
+    elif b.get("table_of"):
+        # fresh-object oracle of a table-sharing construction: a fresh donor
+        # parser (never used) whose LRTable object is handed over with table=
+        donor, _ = _make_parser(g, b["table_of"], spec, actions)
+        kw["table"] = donor.table
+    if "table" in kw:
+        for k in ("tables", "prefer_shifts", "prefer_shifts_over_empty"):
+            kw.pop(k, None)
     p = cls(g, **kw)
     return p, rec
 
 
-def _do_build(g, b, spec, actions=None):
+def _do_build(g, b, spec, actions=None, shared_table=None):
     try:
-        p, rec = _make_parser(g, b, spec, actions)
+        p, rec = _make_parser(g, b, spec, actions, shared_table)
     except Exception as e:
         return None, None, {"build": exc_outcome(e)}
     return p, rec, {"build": "ok", "table": table_digest(p.table)}
@@ -185,7 +195,17 @@ def child_history(spec, ops):
                     if id(gobj) not in actions_of:
                         actions_of[id(gobj)] = (gobj, peers.recording_actions(
                             spec["act_nts"], spec["act_terms"]))
-                    p, rec, out = _do_build(gobj, op["b"], spec, actions_of[id(gobj)][1])
+                    shared = None
+                    if op["b"].get("table_of") is not None:
+                        # the documented table= parameter: this parser shares the
+                        # LRTable OBJECT of an existing parser of the same Grammar
+                        donor = parsers.get(op["table_from"], (None, None))[0]
+                        if donor is None or donor.grammar is not gobj:
+                            parsers[op["p"]] = (None, None)
+                            outs.append({"skipped": "no donor"})
+                            continue
+                        shared = donor.table
+                    p, rec, out = _do_build(gobj, op["b"], spec, actions_of[id(gobj)][1], shared)
                     parsers[op["p"]] = (p, rec)
                     outs.append(out)
                 elif k == "parse":
@@ -432,6 +452,20 @@ def gen_run(rng, tier):
             b = gen_build(rng, sc, lr_fail_bias=rng.random() < 0.2)
             ops.append({"op": "build", "p": slot, "g": g, "b": b})
             parsers[slot] = dict(b, _g=g)
+        elif r < 0.24 and parsers:
+            # a parser that shares the table object of an existing one (table=)
+            dslot = rng.choice(sorted(parsers))
+            donor = parsers[dslot]
+            if donor.get("table_of") is None and not donor.get("bad_actions"):
+                b = gen_build(rng, sc)
+                b["table_of"] = {k: v for k, v in donor.items() if k != "_g"}
+                slot = rng.choice([x for x in range(nslots) if x != dslot])
+                ops.append({"op": "build", "p": slot, "g": donor["_g"], "b": b,
+                            "table_from": dslot})
+                parsers[slot] = dict(b, _g=donor["_g"])
+                # the donor must be unaffected: probe it right away, mostly
+                if rng.random() < 0.7:
+                    ops.append(parse_op(dslot))
         elif r < 0.255 and use_actions and act_nts:
             # a construction that fails with ParserInitError half way through
             # action resolution (wrong-length action list for one nonterminal)
